@@ -1,3 +1,4 @@
+mod c12;
 mod c16;
 mod util;
 
@@ -35,6 +36,7 @@ fn replay(file: &str) -> ! {
     let tier = v["tier"].as_str().unwrap_or("thorough");
     match scn {
         "paych" => replay_with(&c16::scenario(tier).0, &v),
+        "multisig" => replay_with(&c12::scenario(tier).0, &v),
         _ => {
             eprintln!("unknown scenario {scn}");
             std::process::exit(2)
@@ -54,6 +56,7 @@ fn main() {
     match args[1].to_uppercase().as_str() {
         "REPLAY" => replay(&args[2]),
         "C16" => c16::run(&tier),
+        "C12" => c12::run(&tier),
         x => {
             eprintln!("unknown check {x}");
             std::process::exit(2);
